@@ -67,7 +67,8 @@ theorem parseFloatSyntax_strip_all (c : Cfg) (o : POpts) (hG : GenStrip c o)
     (hI : c.skip .integer ≠ .pred .itc) (hF : c.skip .fraction ≠ .pred .itc) (s : List Nat)
     (hb256 : ∀ x ∈ s, x < 256) (fv : Bool) (n : Number) (cnt : Nat)
     (h : parseFloatSyntax c o false s fv = .ok (.number n cnt)) :
-    ∃ n', parseFloatSyntax c o false (nonSep c s) fv = .ok (.number n' (nonSep c s).length) ∧ NumRel c n n' :=
+    ∃ n', parseFloatSyntax c o false (nonSep c s) fv = .ok (.number n' (nonSep c s).length) ∧ NumRel c n n' ∧
+      SlicesOK c n :=
   parseFloatSyntax_strip_gen c o hG (rescan_of_not_itc c o hG .integer (by decide) hI)
     (rescan_of_not_itc c o hG .fraction (by decide) hF) (peekStable_any c o hG .integer) s hb256 fv n cnt h
 
